@@ -107,7 +107,15 @@ func ConcatItems[T any](items []T) (T, error) {
 		return t, err
 	}
 
-	return cv.Interface().(T), nil
+	res := cv.Interface()
+	if res == nil {
+		// T is an interface type and every chunk was a nil interface: the concatenated value is
+		// the nil (zero) T. A nil interface cannot be type-asserted, not even to an interface type.
+		var t T
+		return t, nil
+	}
+
+	return res.(T), nil
 }
 
 func concatMaps(ms reflect.Value) (reflect.Value, error) {
